@@ -205,7 +205,8 @@ def evaluate(env, c):
             return
     ops += [drv.op("K", "devlog", out + "/devlog.sock", 1), drv.op("W", "log", out + "/log"),
             drv.op("C", ini), drv.op_env(c["environ"]),
-            drv.op_exec("e", c["path"], c["argv"], [], ret=-1, err=2), drv.op("G")]
+            # the same call twice: templates must expand from scratch every time
+            drv.op_exec("e", c["path"], c["argv"], [], ret=-1, err=2), drv.op_exec("v", c["path"], c["argv"], [], ret=-1, err=2), drv.op("G")]
     res = d.scenario(ops)
     reports = d.sanitizer_reports()
     if not res.clean or not res.of("T"):
@@ -220,7 +221,10 @@ def evaluate(env, c):
         else:
             if not content.endswith(b"\n"):
                 raise Failure("file record not newline-terminated", {"tail": content[-50:]}, key="framing")
-            record = content[:-1]
+            half = len(content) // 2
+            if len(content) % 2 or content[:half] != content[half:]:
+                raise Failure("two identical calls produced different records", {"len": len(content), "head": content[:200]}, key="repeat")
+            record = content[:half - 1]
         bad = model.check_expansion(record, c["fmt"], fctx, c["l_ds"], c["l_log"])
         if bad:
             raise Failure("message: " + bad[0], {"record_len": None if record is None else len(record),
@@ -229,8 +233,8 @@ def evaluate(env, c):
                            "expected_tail": (bad[1] or b"")[-80:]}, key="message")
     elif c["target"] == "ident":
         dg = dump["devlog"][2]
-        if len(dg) != 1:
-            raise Failure("devlog: expected one datagram, got %d" % len(dg), None, key="ident-count")
+        if len(dg) != 2 or dg[0] != dg[1]:
+            raise Failure("devlog: expected two identical datagrams for two identical calls, got %d" % len(dg), {"datagrams": [x[:200] for x in dg[:3]]}, key="ident-count")
         m = re.match(rb"^<(\d+)>(.*)\[(\d+)\]: M$", dg[0], re.S)
         if not m:
             raise Failure("devlog datagram not of the form <pri>ident[pid]: message", {"datagram": dg[0][:400]}, key="ident-frame")
@@ -251,7 +255,7 @@ def evaluate(env, c):
                 raise Failure("output path template: file created under a different name",
                               {"created": names}, {"expected": want}, key="path")
             with open(os.path.join(pdir, names[0]), "rb") as f:
-                if f.read() != b"M\n":
+                if f.read() != b"M\nM\n":
                     raise Failure("output path template: record content differs", None, key="path-content")
         else:
             # not creatable / beyond limits: only require that nothing longer than the limit was used
